@@ -195,3 +195,73 @@ func genChunks(g *opGen, nChunks, maxOps int) (specs []string, kinds []string) {
 	}
 	return specs, kinds
 }
+
+// goChoice converts an abstract copy (distance, length) into the operation the Go encoder's
+// writeMatch emits for it: the first rep register holding the distance wins; length 1 is the
+// short rep. It mirrors lzma/encoder.go and also updates the generator's rep registers.
+func (g *opGen) goChoice(dist, n int) string {
+	d := dist - 1
+	gi := -1
+	for i := 0; i < 4; i++ {
+		if g.rep[i] == d {
+			gi = i
+			break
+		}
+	}
+	if gi < 0 {
+		g.rep = [4]int{d, g.rep[0], g.rep[1], g.rep[2]}
+		return fmt.Sprintf("M%d,%d", n, d)
+	}
+	if gi == 0 && n == 1 {
+		return "S"
+	}
+	switch gi {
+	case 1:
+		g.rep = [4]int{d, g.rep[0], g.rep[2], g.rep[3]}
+	case 2:
+		g.rep = [4]int{d, g.rep[0], g.rep[1], g.rep[3]}
+	case 3:
+		g.rep = [4]int{d, g.rep[0], g.rep[1], g.rep[2]}
+	}
+	return fmt.Sprintf("R%d,%d", gi, n)
+}
+
+// nextAbstract produces one legal abstract operation (literal or copy), applies it, and returns
+// it both as the Go scripted-matcher operation and as the bit-stream operation Go will emit.
+func (g *opGen) nextAbstract() (dist, n int, lit byte, raw string) {
+	dl := g.dictLen()
+	k := g.rng.Intn(100)
+	if dl == 0 || k < 35 {
+		var b byte
+		switch {
+		case dl > 0 && g.rep[0]+1 <= dl && g.rng.Intn(3) == 0:
+			b = g.content[len(g.content)-g.rep[0]-1] // equals the match byte: all eight bits take the matched path
+		case len(g.content) > 0 && g.rng.Intn(3) == 0:
+			b = g.content[len(g.content)-1] ^ byte(1<<uint(g.rng.Intn(8)))
+		default:
+			b = byte(g.rng.Intn(256))
+			if g.rng.Intn(4) == 0 {
+				b = 0
+			}
+		}
+		g.content = append(g.content, b)
+		return 0, 0, b, fmt.Sprintf("L%d", b)
+	}
+	var d int
+	switch {
+	case k < 60:
+		d = g.pickDist()
+	default:
+		d = g.rep[g.rng.Intn(4)] + 1
+		if d > dl {
+			d = g.pickDist()
+		}
+	}
+	ln := g.pickLen()
+	if d == g.rep[0]+1 && g.rng.Intn(4) == 0 {
+		ln = 1
+	}
+	raw = g.goChoice(d, ln)
+	g.copyFrom(d, ln)
+	return d, ln, 0, raw
+}
